@@ -86,6 +86,9 @@ func GenRecips(r *core.RNG, max int, allowRSA, allowScrypt bool) []Recip {
 		return []Recip{{Key: &world.Key{T: "s", K: r.Intn(world.NPass), WF: r.Range(1, 6)}}}
 	}
 	n := r.Range(1, max)
+	if max >= 4 && r.Chance(1, 40) {
+		n = r.Range(40, 70) // a header well beyond one 4096-byte buffer page
+	}
 	var out []Recip
 	real := false
 	for i := 0; i < n; i++ {
@@ -100,7 +103,7 @@ func GenRecips(r *core.RNG, max int, allowRSA, allowScrypt bool) []Recip {
 			out = append(out, Recip{Key: &world.Key{T: "r", K: r.Intn(world.NRSA)}})
 			real = true
 		default:
-			out = append(out, Recip{Grease: &Grease{N: r.Range(0, 2), Body: r.Pick(0, 47, 48, 49, 96), Tag: r.Intn(100)}})
+			out = append(out, Recip{Grease: &Grease{N: r.Range(0, 2), Body: r.Pick(0, 47, 48, 49, 96, 96, 4000, 5000), Tag: r.Intn(100)}})
 		}
 	}
 	if !real {
@@ -503,3 +506,12 @@ func ParseLayout(bin []byte, k world.Key) (*Layout, error) {
 }
 
 func IsPrefix(a, b []byte) bool { return len(a) <= len(b) && bytes.Equal(a, b[:len(a)]) }
+
+// ClampGrease keeps exhaustive sweeps small: large unknown stanzas are for sampled runs.
+func ClampGrease(rs []Recip, max int) {
+	for _, r := range rs {
+		if r.Grease != nil && r.Grease.Body > max {
+			r.Grease.Body = max
+		}
+	}
+}
